@@ -399,6 +399,10 @@ let () =
   let cfg = ref { c_noclear = false; c_file = false; c_gc_interval = z_of_int 1; c_gc_minidle = Z0; c_default_lt = Z0 } in
   let tmo = ref (z_of_int 1) in
   let revs : (revent * rout list) list ref = ref [] in
+  (* the whole history of the REST side's server: REST exchanges and (mode "mixed") gRPC calls on the same server *)
+  let mevs : (mevent * rout list) list ref = ref [] in
+  let mcur : (mevent * rout list) option ref = ref None in
+  let flush_m () = (match !mcur with Some (e, os) -> mevs := (e, List.rev os) :: !mevs | None -> ()); mcur := None in
   let gevs : (event * out list) list ref = ref [] in
   let rcur : (revent * rout list) option ref = ref None in
   let gcur : (event * out list) option ref = ref None in
@@ -406,8 +410,8 @@ let () =
   let flush_r () = (match !rcur with Some (e, os) -> revs := (e, List.rev os) :: !revs | None -> ()); rcur := None in
   let flush_g () = (match !gcur with Some (e, os) -> gevs := (e, List.rev os) :: !gevs | None -> ()); gcur := None in
   let finish () =
-    flush_r (); flush_g ();
-    let rh = List.rev !revs and gh = List.rev !gevs in
+    flush_r (); flush_g (); flush_m ();
+    let rh = List.rev !revs and gh = List.rev !gevs and mh = List.rev !mevs in
     (match !bad with
      | Some msg -> Printf.printf "B %s %s\n" !hid msg
      | None ->
@@ -415,7 +419,7 @@ let () =
          match List.assoc_opt pn projections with
          | None -> Printf.printf "B %s unknown-projection-%s\n" !hid pn
          | Some (p, ck) ->
-           (match rreplay_history p ck !cfg !tmo rh with
+           (match mreplay_history p ck !cfg !tmo mh with
             | None -> Printf.printf "R %s rest %s ok\n" !hid pn
             | Some (i, outs) ->
                 Printf.printf "R %s rest %s mismatch %d\n" !hid pn (int_of_nat i);
@@ -431,7 +435,7 @@ let () =
        List.iter (fun (i, t) -> Printf.printf "T %s %d %s\n" !hid (int_of_nat i) (ocaml_string t)) (c20_failures_b !tmo rh);
        List.iter (fun (i, t) -> Printf.printf "I %s %d %s\n" !hid (int_of_nat i) (ocaml_string t)) (c20_inert_failures_b rh);
        if rhas_tie_b !cfg !tmo (List.map fst rh) then Printf.printf "Y %s tie\n" !hid);
-    revs := []; gevs := []; rcur := None; gcur := None; bad := None in
+    revs := []; gevs := []; mevs := []; rcur := None; gcur := None; mcur := None; bad := None in
   (try
      while true do
        let line = input_line ic in
@@ -442,9 +446,16 @@ let () =
            cfg := { c_noclear = bool_of nc; c_file = bool_of f; c_gc_interval = z_of_int (int_of_string gci);
                     c_gc_minidle = z_of_int (int_of_string gcm); c_default_lt = z_of_int (int_of_string dlt) };
            tmo := z_of_int (int_of_string t)
-       | "E" :: rest -> flush_r (); (try rcur := Some (parse_revent rest, []) with Bad m | Failure m -> bad := Some ("parse:" ^ us m))
+       | "E" :: "grpc" :: rest ->
+           flush_r (); flush_m (); (try mcur := Some (MGrpc (parse_event rest), []) with Bad m | Failure m -> bad := Some ("parse:" ^ us m))
+       | "E" :: rest ->
+           flush_r (); flush_m ();
+           (try let e = parse_revent rest in rcur := Some (e, []); mcur := Some (MRest e, []) with Bad m | Failure m -> bad := Some ("parse:" ^ us m))
        | "O" :: rest ->
-           (try match !rcur with Some (e, os) -> rcur := Some (e, parse_rout rest :: os) | None -> ()
+           (try
+              let o = parse_rout rest in
+              (match !rcur with Some (e, os) -> rcur := Some (e, o :: os) | None -> ());
+              (match !mcur with Some (e, os) -> mcur := Some (e, o :: os) | None -> ())
             with Bad m | Failure m -> bad := Some ("parse:" ^ us m))
        | "G" :: rest -> flush_g (); (try gcur := Some (parse_event rest, []) with Bad m | Failure m -> bad := Some ("parse:" ^ us m))
        | "P" :: rest ->
